@@ -2180,9 +2180,12 @@ impl<'a, W: Write + 'a> Serializer<'a, W> {
                         file_version: version,
                     }; //Savefile always serializes most recent version. Only savefile-abi ever writes old formats.
                     data.serialize(&mut serializer)?;
-                    compressed_writer.flush()?;
                     // Finish the stream here: errors while writing the end of the stream
                     // would otherwise be swallowed when the encoder is dropped.
+                    // (No separate flush() of the encoder first: finishing writes everything,
+                    // producing the same bytes, while a flush that fails half-way leaves the
+                    // bzip2 stream in a state that can never be finished, and the encoder's
+                    // Drop would then spin forever if the writer works again.)
                     compressed_writer.try_finish()?;
                     compressed_writer.get_mut().flush()?;
                     return Ok(());
